@@ -32,6 +32,15 @@ def _base_configs():
     c.append(dict(tag="heat-cool", phases=[ph], D=1e-16, se=1e-5, temp=("array", [0, H(100.0), H(200.0)], [1000, 1004, 1000]), calls=[(200.0, 0.005)],
                   iter="euler", constraints=dict(maxNonIsothermalDT=10)))
     c.append(dict(tag="ramp-function", phases=[ph], D=1e-16, se=1e-5, temp=("function", [0, H(300.0)], [1000, 990]), calls=[(300.0, 0.01)], iter="euler"))
+    # non-spherical precipitates with a constant aspect ratio (thermodynamic and kinetic shape factors enter Rcrit, the Gibbs-Thomson
+    # energy of every size class and the growth rate)
+    c.append(dict(tag="needle-ar3", phases=[dict(ph, shape=("needle", 3.0))], D=1e-16, calls=[(100.0, 0.02)], iter="euler"))
+    c.append(dict(tag="plate-ar2-rk4", phases=[dict(ph, shape=("plate", 2.0))], D=1e-16, calls=[(100.0, 0.02)], iter="rk4"))
+    c.append(dict(tag="cubic-ar1.5-two-phases", phases=[dict(ph, shape=("cubic", 1.5)), dict(name="gamma", gamma=0.055, xe0=0.006, xb=0.2, shape=("needle", 2.0))],
+                  D=1e-16, calls=[(100.0, 0.02)], iter="euler"))
+    # aspect ratio that depends on the particle size (known finding C12: the critical radius is computed with the aspect ratio at the
+    # PREVIOUS step's critical radius, so the radius of zero growth and Rcrit agree only up to the change of Rcrit per step)
+    c.append(dict(tag="needle-ar-function", phases=[dict(ph, shape=("needle", ("linear", 1.5, 0.8)))], D=1e-16, calls=[(100.0, 0.02)], iter="euler"))
     # the second impingement-rate option of binary systems (setBetaBinary(2)), isothermal, two phases and on a ramp
     c.append(dict(tag="beta2-iso", phases=[ph], D=1e-16, beta=2, calls=[(100.0, 0.02)], iter="euler"))
     c.append(dict(tag="beta2-two-phases-rk4", phases=[ph, dict(name="gamma", gamma=0.055, xe0=0.006, xb=0.2)], D=1e-16, beta=2, calls=[(60.0, 0.02)], iter="rk4"))
